@@ -122,8 +122,8 @@ def _models(draw, stratum):
             ms.append(m)
     else:
         for i in range(n):
-            ms.append(draw(gen.any_model(None, 1, 3, depth=1, customs=(stratum != "shared_names"))))
-        if stratum == "shared_names" and draw(st.booleans()):
+            ms.append(draw(gen.any_model(None, 1, 3, depth=1, customs=(stratum not in ("shared_names", "shared_caller")))))
+        if stratum == "shared_caller" or (stratum == "shared_names" and draw(st.integers(0, 3)) == 0):
             # the models share the TEXT of a form that calls a helper form, and define that helper differently:
             # what a formula means depends on the file it stands in, not on the files read before
             import copy
@@ -203,7 +203,7 @@ def strategy(tier):
 
 
 def strata(tier):
-    return [("mixed", _case("mixed"), 4), ("shared_names", _case("shared_names"), 3), ("underspecified", _case("underspecified"), 3),
+    return [("mixed", _case("mixed"), 4), ("shared_names", _case("shared_names"), 2.5), ("shared_caller", _case("shared_caller"), 2), ("underspecified", _case("underspecified"), 3),
             ("failing_evals", _case("failing_evals"), 3), ("nested_forms", _case("nested_forms"), 2),
             ("shared_elements", _case("shared_elements"), 2)]
 
